@@ -22,7 +22,7 @@ from .. import values as V
 from .. import wbgen as G
 
 PID = 'C03'
-GEN_KW = {'n_cells': 9, 'features': ['names', 'array'], 'case_titles': True}
+GEN_KW = {'n_cells': 9, 'features': ['names', 'array'], 'case_titles': True, 'overlaps': True}
 
 
 def run_jobs(wd, gen_kw, items, hashseeds):
